@@ -364,6 +364,25 @@ Proof.
   - exists cs, (ca ++ [e]). split; [exact R1|reflexivity].
 Qed.
 
+(* the same for a write whose rotation decision is given (observed), whatever it is *)
+Lemma rep_write_at d a pre cs ca k del v rot :
+  Rep d a pre cs ca ->
+  exists cs' ca', Rep (db_write_at d k del v rot) a pre cs' ca' /\
+                  concat cs' ++ ca' = concat cs ++ ca ++ [mkE k (d_seq d + 1) del (if del then [] else v)].
+Proof.
+  intro R. unfold db_write_at, db_put. set (e := mkE k (d_seq d + 1) del (if del then [] else v)).
+  assert (Rep (mkDb (d_seq d + 1) (mt_put (d_active d) e) (d_sealed d) (d_tables d) (d_latest d) (wal_put (d_wal d) e) (d_mem d) (d_walmax d)) a pre cs (ca ++ [e])) as R1.
+  { apply rep_put; [exact R|reflexivity|]. unfold normal, e. cbn. intros ->. reflexivity. }
+  destruct rot.
+  - exists (cs ++ [ca ++ [e]]), []. split.
+    + apply (rep_rotate _ _ _ _ _ R1). destruct ca; discriminate.
+    + rewrite concat_app. cbn. rewrite !app_nil_r. reflexivity.
+  - exists cs, (ca ++ [e]). split; [exact R1|reflexivity].
+Qed.
+
+Lemma db_write_at_eq d k del v : fst (db_write d k del v) = db_write_at d k del v (snd (db_write d k del v)).
+Proof. unfold db_write, db_write_at, db_put. destruct (_ || _); reflexivity. Qed.
+
 Lemma rep_checkpoint d a pre cs ca : Rep d a pre cs ca -> Rep (fst (db_checkpoint d)) a pre cs ca.
 Proof.
   intro R. pose proof (rep_active_bound _ _ _ _ _ R) as AB. destruct R.
@@ -691,12 +710,30 @@ Proof.
   cbn [value_of e_del e_val]. destruct del; reflexivity.
 Qed.
 
+(* the same whatever the rotation decision: contents never depend on WHEN a memtable is rotated *)
+Theorem db_write_at_get d k del v rot k' :
+  Inv d ->
+  db_get (db_write_at d k del v rot) k' = if beqb k' k then (if del then None else Some v) else db_get d k'.
+Proof.
+  intros [a [pre [cs [ca R]]]].
+  destruct (rep_write_at d a pre cs ca k del v rot R) as [cs1 [ca1 [R1 E1]]].
+  assert (d_tables (db_write_at d k del v rot) = d_tables d) as Tb by (unfold db_write_at; destruct rot; reflexivity).
+  rewrite (db_get_char _ _ _ _ _ k' R1), (db_get_char _ _ _ _ _ k' R). unfold view. rewrite Tb, E1.
+  rewrite app_assoc, lastw_app. cbn [lastw e_key]. destruct (beqb k' k); [|reflexivity].
+  cbn [value_of e_del e_val]. destruct del; reflexivity.
+Qed.
+
+Theorem rotation_point_irrelevant d k del v rot rot' k' :
+  Inv d -> db_get (db_write_at d k del v rot) k' = db_get (db_write_at d k del v rot') k'.
+Proof. intro I. rewrite !db_write_at_get by exact I. reflexivity. Qed.
+
 (* ------------------------------------------------------------------ every schedule of actions of one database object *)
 Inductive action :=
 | AWrite (k : bytes) (del : bool) (v : bytes)      (* Put / Delete, including the rotation it may trigger *)
 | ACheckpoint                                       (* locked part of Checkpoint: WAL rotation *)
 | AFlush (n : nat) (dir next : N)                   (* swap of a flush task that had snapshotted the first n sealed memtables *)
-| ACompact (removed : list fname) (added : list table).  (* apply of a compaction change set *)
+| ACompact (removed : list fname) (added : list table)   (* apply of a compaction change set *)
+| AWriteAt (k : bytes) (del : bool) (v : bytes) (rot : bool).   (* Put / Delete with ANY rotation decision (whatever policy decides when a buffer is full) *)
 
 Definition act_ok (d : dbc) (a : action) : Prop :=
   match a with
@@ -710,16 +747,18 @@ Definition do_action (d : dbc) (a : action) : dbc :=
   | ACheckpoint => fst (db_checkpoint d)
   | AFlush n dir next => db_flush_swap d n (mk_tables dir next (firstn n (d_sealed d)))
   | ACompact removed added => db_compact_apply d removed added
+  | AWriteAt k del v rot => db_write_at d k del v rot
   end.
 
 Theorem inv_step d a : Inv d -> act_ok d a -> Inv (do_action d a).
 Proof.
-  intros [a0 [pre [cs [ca R]]]] OK. destruct a as [k del v| |n dir next|removed added]; cbn [do_action act_ok] in *.
+  intros [a0 [pre [cs [ca R]]]] OK. destruct a as [k del v| |n dir next|removed added|k del v rot]; cbn [do_action act_ok] in *.
   - destruct (rep_write d a0 pre cs ca k del v R) as [cs1 [ca1 [R1 _]]]. exists a0, pre, cs1, ca1. exact R1.
   - exists a0, pre, cs, ca. apply rep_checkpoint. exact R.
   - assert (n <= length cs)%nat as Hn by (rewrite (rp_sealed _ _ _ _ _ R), map_length in OK; exact OK).
     destruct (rep_flush_swap d a0 pre cs ca n dir next R Hn) as [a' [pre' R']]. exists a', pre', (skipn n cs), ca. exact R'.
   - destruct OK as [EO LE]. exists a0, pre, cs, ca. apply rep_compact; assumption.
+  - destruct (rep_write_at d a0 pre cs ca k del v rot R) as [cs1 [ca1 [R1 _]]]. exists a0, pre, cs1, ca1. exact R1.
 Qed.
 
 (* the databases that can exist: a new one, one more action, or a restore from a checkpoint of one that can exist
